@@ -30,6 +30,18 @@ pub struct Lock {
     pub pid: &'static str,
     /// request decoding on every symbol line (payloads are undecodable: every final fails)
     pub decode_all: bool,
+    /// 0: symbol payloads are valid armoring of an unsupported type (decoding fails in the
+    /// message stage); 1: every symbol payload contains a byte outside the armoring alphabet
+    /// (decoding fails while unarmoring); 2: alternating
+    pub payload_style: u8,
+}
+
+/// unique payload that cannot be unarmored: 'X' (88) is outside the alphabet
+pub fn uniq_payload_bad_armor(counter: u64) -> Vec<u8> {
+    let mut v = uniq_payload(counter);
+    let last = v.len() - 1;
+    v[last] = b'X';
+    v
 }
 
 pub struct Step {
@@ -41,7 +53,7 @@ pub struct Step {
 
 impl Lock {
     pub fn new(pid: &'static str) -> Self {
-        Lock { p: Parser::new(), m: Reasm::new(), log: Vec::new(), ctr: 0, pid, decode_all: false }
+        Lock { p: Parser::new(), m: Reasm::new(), log: Vec::new(), ctr: 0, pid, decode_all: false, payload_style: 0 }
     }
 
     /// Feed one well-formed line with a given payload; judge against the model.
@@ -214,7 +226,12 @@ impl Lock {
             Sym::Hdr(n, k, id) => {
                 let c = self.next_ctr();
                 let d = self.decode_all;
-                Some(self.feed_hdr(rep, *n, *k, *id, &uniq_payload(c), 0, d, None, note))
+                let pl = match self.payload_style {
+                    1 => uniq_payload_bad_armor(c),
+                    2 if c % 2 == 0 => uniq_payload_bad_armor(c),
+                    _ => uniq_payload(c),
+                };
+                Some(self.feed_hdr(rep, *n, *k, *id, &pl, 0, d, None, note))
             }
             Sym::BadChecksum => {
                 self.feed_inert(rep, true, note);
@@ -250,7 +267,7 @@ pub fn alphabet() -> Vec<Sym> {
 }
 
 /// bounded-exhaustive: every history of exactly `depth` symbols (all shorter ones are prefixes)
-fn exhaustive(ctx: &Ctx, rep: &mut Report, depth: usize, decode_all: bool) {
+fn exhaustive(ctx: &Ctx, rep: &mut Report, depth: usize, decode_all: bool, payload_style: u8) {
     let a = alphabet();
     let base = a.len() as u64;
     let total = base.pow(depth as u32);
@@ -263,6 +280,7 @@ fn exhaustive(ctx: &Ctx, rep: &mut Report, depth: usize, decode_all: bool) {
         }
         let mut lk = Lock::new(PID);
         lk.decode_all = decode_all;
+        lk.payload_style = payload_style;
         let mut x = h;
         let mut digits = vec![0usize; depth];
         for d in (0..depth).rev() {
@@ -446,6 +464,19 @@ fn random_histories(ctx: &Ctx, rep: &mut Report, r: &mut Rng) {
                     }
                     frags = mixed;
                 }
+                10 => {
+                    // one byte of one fragment replaced by a byte outside the armoring alphabet:
+                    // with decoding requested the delivery fails while unarmoring
+                    let i = r.usize(0, frags.len() - 1);
+                    let j = r.usize(0, frags[i].3.len() - 1);
+                    frags[i].3[j] = *r.pick(b"X~_xy\x7f\x80 ");
+                    // followed by a stale tail of the same id (k = n+1 with a larger count)
+                    let (n0, _, id0, _, _, _) = frags.last().unwrap().clone();
+                    if n0 < 250 && r.bool() {
+                        let c = lk.next_ctr();
+                        frags.push((n0 + 1, n0 + 1, id0, uniq_payload(c), 0, None));
+                    }
+                }
                 9 => {
                     // unfragmented lines in between
                     let i = r.usize(0, frags.len());
@@ -495,10 +526,14 @@ pub const REQUIRED_CELLS: &[&str] = &[
 
 pub fn run(ctx: &Ctx, rep: &mut Report) {
     let mut r = ctx.rng("c06");
-    exhaustive(ctx, rep, if ctx.thorough() { 5 } else { 4 }, false);
+    exhaustive(ctx, rep, if ctx.thorough() { 5 } else { 4 }, false, 0);
     // the same with decoding requested: unique payloads do not decode, so every final
     // fragment fails after sequencing and the state after a failed delivery is explored
-    exhaustive(ctx, rep, 4, true);
+    exhaustive(ctx, rep, 4, true, 0);
+    // ... and with payloads that already fail while unarmoring (a byte outside the alphabet in
+    // every line, or in every other line): the delivery fails one stage earlier
+    exhaustive(ctx, rep, 4, true, 1);
+    exhaustive(ctx, rep, 4, true, 2);
     random_histories(ctx, rep, &mut r);
     for c in REQUIRED_CELLS {
         rep.require(&format!("cell:{}", c));
